@@ -411,8 +411,13 @@ func MulticodeDecodeMultiple(s []byte) []*DenseGraph {
 	var numberOfVerticesLeft byte
 	for i := 0; i < len(s); i++ {
 		if numberOfVerticesLeft == 0 {
-			numberOfVerticesLeft = s[i] - 1
 			startOfGraph = i
+			if s[i] <= 1 {
+				//A graph on 0 or 1 vertices is just its size byte as there are no lists to terminate.
+				graphs = append(graphs, MulticodeDecode(s[i:i+1]))
+				continue
+			}
+			numberOfVerticesLeft = s[i] - 1
 		}
 		if s[i] == 0 {
 			numberOfVerticesLeft--
